@@ -120,6 +120,10 @@ partial def Formula.ofSexp : Sexp → Option Formula
       some (.quant (← Quant.ofName q) (← listOf Var.ofSexp vs) (← Formula.ofSexp f))
   | _ => none
 
+def optToSexp {α} (f : α → Sexp) : Option α → Sexp
+  | some a => .list [.atom "some", f a]
+  | none => .atom "none"
+
 def theoryToSexp (t : Theory) : Sexp := .list (t.map Formula.toSexp)
 def theoryOfSexp : Sexp → Option Theory := listOf Formula.ofSexp
 
